@@ -77,6 +77,10 @@ pub struct Shape {
     pub meta_len: u16,
     /// all columns degenerate (constant / low degree): the class named explicitly by C01
     pub degenerate: bool,
+    /// LDE coset chosen by the computation through `Air::domain_offset()`: 0 = the default (not overridden),
+    /// 1 = the inverse of the field generator, 2 = its cube
+    #[serde(default)]
+    pub offset_sel: u8,
 }
 
 /// everything needed to run one instance
@@ -235,12 +239,12 @@ pub fn shape_strategy(p: &GenParams) -> BoxedStrategy<Shape> {
             1u8..=4,
             0u8..=8,
         ),
-        (prop_oneof![3 => Just(0u16), 1 => 1u16..=40, 1 => Just(65535u16)], degenerate),
+        (prop_oneof![3 => Just(0u16), 1 => 1u16..=40, 1 => Just(65535u16)], degenerate, prop_oneof![5 => Just(0u8), 1 => Just(1u8), 1 => Just(2u8)]),
     )
-        .prop_flat_map(|((fh, ext, log_n, width), mid, seeds, o, (meta_len, degenerate))| {
-            (prop::collection::vec(rule_strategy(), width), Just((fh, ext, log_n, mid, seeds, o, meta_len, degenerate)))
+        .prop_flat_map(|((fh, ext, log_n, width), mid, seeds, o, (meta_len, degenerate, offset_sel))| {
+            (prop::collection::vec(rule_strategy(), width), Just((fh, ext, log_n, mid, seeds, o, (meta_len, offset_sel), degenerate)))
         })
-        .prop_map(|(rules, ((field, hasher), ext, log_n, (periodic, exempt_sel, asserts, aux), (first_row, free_pool), o, meta_len, degenerate))| Shape {
+        .prop_map(|(rules, ((field, hasher), ext, log_n, (periodic, exempt_sel, asserts, aux), (first_row, free_pool), o, (meta_len, offset_sel), degenerate))| Shape {
             field,
             hasher,
             ext,
@@ -255,6 +259,7 @@ pub fn shape_strategy(p: &GenParams) -> BoxedStrategy<Shape> {
             opts: OptSpec { queries: o.0.max(1), log_blowup: o.1, grinding: o.2, log_folding: o.3, log_rem: o.4 },
             meta_len,
             degenerate,
+            offset_sel,
         })
         .boxed()
 }
@@ -387,7 +392,7 @@ pub fn realize<B: FA>(s: &Shape, cell_budget: usize) -> Instance {
     });
 
     let meta: Vec<u8> = (0..s.meta_len as usize).map(|i| (i as u8).wrapping_mul(31).wrapping_add(7)).collect();
-    let mut desc = Desc { log_n, rules, periodic, exemptions, assertions: vec![], aux, meta };
+    let mut desc = Desc { log_n, rules, periodic, exemptions, assertions: vec![], aux, meta, offset_sel: s.offset_sel % 3 };
 
     // --- trace by construction --------------------------------------------------------------------
     let first_row: Vec<X> = if s.degenerate { s.first_row.iter().map(|x| X(x.0 % fp.p)).collect() } else { s.first_row.clone() };
@@ -516,6 +521,12 @@ pub fn realize<B: FA>(s: &Shape, cell_budget: usize) -> Instance {
     }
     if s.degenerate {
         labels.push("degenerate-trace".into());
+    }
+    if desc.offset_sel != 0 {
+        labels.push("domain-offset-overridden".into());
+    }
+    if desc.aux.as_ref().is_some_and(|a| a.cols.len() > desc.rules.len()) {
+        labels.push("aux-constraints>main-constraints".into());
     }
     if ce_blowup < blowup {
         labels.push("ce-blowup<lde-blowup".into());
